@@ -13,3 +13,5 @@ INVARIANT MapLaws
 INVARIANT SplitJoinInverse
 INVARIANT AtOptionalLaws
 INVARIANT ArrayLaws
+INVARIANT ExtensionSeqLaws
+INVARIANT IndexMapLaws
